@@ -89,6 +89,22 @@ func concreteBytes(st *symState, v SV) ([]byte, bool) {
 	}
 }
 
+// concreteInts returns the elements of a slice whose length and integer elements are known in st.
+func concreteInts(st *symState, v SV) ([]int64, bool) {
+	if v.Len == nil || !v.Len.Known {
+		return nil, false
+	}
+	out := make([]int64, v.Len.N)
+	for i := int64(0); i < v.Len.N; i++ {
+		e, ok := st.heap[fmt.Sprintf("%s[%d]", v.Desc, i)]
+		if !ok || !(e.K == "int" && e.Known) {
+			return nil, false
+		}
+		out[i] = e.N
+	}
+	return out, true
+}
+
 func msgScenario(c *Ctx, mm msgMatcher, mc msgCase) *Scenario {
 	sc := &Scenario{Name: mm.cfgName + "," + mc.name, MaxVisit: 70, MaxPaths: 4000,
 		Params: map[string]SV{"recv": symRef("m", false), "p0": symRef("cx", false)},
@@ -204,7 +220,7 @@ func msgScenario(c *Ctx, mm msgMatcher, mc msgCase) *Scenario {
 				switch u := t.Underlying().(type) {
 				case *types.Struct:
 					for i := 0; i < u.NumFields(); i++ {
-						put(u.Field(i).Type(), addr+"."+u.Field(i).Name())
+						put(u.Field(i).Type(), addr+"."+canonFieldName(u.Field(i)))
 					}
 				case *types.Array:
 					for i := int64(0); i < u.Len(); i++ {
@@ -236,6 +252,30 @@ func msgScenario(c *Ctx, mm msgMatcher, mc msgCase) *Scenario {
 			}
 			st.heap[args[0].Desc+".pos"] = symInt(pos)
 			return symNil(), true
+		case (callee == "bytes.IndexByte" || callee == "strings.IndexByte") && len(args) == 2 && args[1].K == "int" && args[1].Known:
+			if a, ok := concreteBytes(st, args[0]); ok {
+				return symInt(int64(bytes.IndexByte(a, byte(args[1].N)))), true
+			}
+		case (callee == "bytes.Index" || callee == "strings.Index") && len(args) == 2:
+			a, ok1 := concreteBytes(st, args[0])
+			b, ok2 := concreteBytes(st, args[1])
+			if ok1 && ok2 {
+				return symInt(int64(bytes.Index(a, b))), true
+			}
+		case (strings.HasPrefix(callee, "slices.Contains") || strings.HasPrefix(callee, "slices.Index")) && len(args) == 2 && args[1].K == "int" && args[1].Known:
+			if xs, ok := concreteInts(st, args[0]); ok {
+				idx := int64(-1)
+				for i, x := range xs {
+					if x == args[1].N {
+						idx = int64(i)
+						break
+					}
+				}
+				if strings.HasPrefix(callee, "slices.Contains") {
+					return symBool(idx >= 0), true
+				}
+				return symInt(idx), true
+			}
 		case callee == "bytes.Equal" && len(args) == 2:
 			a, ok1 := concreteBytes(st, args[0])
 			b, ok2 := concreteBytes(st, args[1])
